@@ -52,8 +52,10 @@ func (g *GoFakeS3) routeBase(w http.ResponseWriter, r *http.Request) {
 		// taken for an absent one.
 		err = ErrorMessage(ErrInvalidURI, qerr.Error())
 
-	} else if uploadID := UploadID(query.Get("uploadId")); uploadID != "" {
-		err = g.routeMultipartUpload(bucket, object, uploadID, w, r)
+	} else if _, ok := query["uploadId"]; ok {
+		// (also when the id is empty: such a request addresses no upload, it
+		// is not an upload or a delete of the object)
+		err = g.routeMultipartUpload(bucket, object, UploadID(query.Get("uploadId")), w, r)
 
 	} else if _, ok := query["uploads"]; ok {
 		err = g.routeMultipartUploadBase(bucket, object, w, r)
